@@ -292,7 +292,7 @@ def lin_solver(f, b, v0, ncv=10, tol=1e-13, pinv_tol=1e-13, hermitian=False, **k
     q0 = b - f(v0)
     normv = q0.norm()
     if normv == 0:
-        raise YastnError('Initial vector v0 of lin_solver should be nonzero.')
+        return v0, normv  # v0 solves the problem exactly
     Q = [q0 / normv]
     Q, H, happy = q0.expand_krylov_space(f, tol, ncv, hermitian, Q, **kwargs)
     m = len(Q) if happy else len(Q) - 1
